@@ -26,6 +26,13 @@ def t1(ctx):
     tok_defs = [n for n in cfg.stmt_nodes() if n.kind == "stmt" and isinstance(n.ast, ast.Assign) and isinstance(unwrap_await(n.ast.value), ast.Call)
                 and (dotted(unwrap_await(n.ast.value).func) or "").endswith("resource.get_sync_token")]
     if not tok_defs:
+        calls = [n for n in cfg.stmt_nodes() for c in n.calls() if (dotted(c.func) or "").endswith("resource.get_sync_token")]
+        if len(calls) >= 1:
+            return [ctx.bad(fi.qualname, where(fi, calls[-1]), "the returned token is the one that was diffed against",
+                            "resource.get_sync_token() is evaluated %d time(s) in the report instead of once before the enumeration: the token returned "
+                            "can describe a later state than the change list (a write during the report is covered by the token but never listed)" % len(calls))] * 1 + \
+                   [ctx.bad(fi.qualname, where(fi, calls[0]), "token taken before the changes are enumerated", "the sync token is not captured in a variable before the enumeration"),
+                    ctx.bad(fi.qualname, where(fi, calls[0]), "diff is computed up to the token taken at the start", "iter_differences_since is not given a token captured once")]
         raise AnalysisError("SyncCollectionReporter.report: no `x = resource.get_sync_token()`")
     var = tok_defs[0].ast.targets[0].id
     diffs = [(n, c) for n in cfg.stmt_nodes() for c in n.calls() if isinstance(c.func, ast.Attribute) and c.func.attr == "iter_differences_since"]
@@ -193,3 +200,36 @@ def t3(ctx):
 def t4(ctx):
     from .c08 import single_source_obligations
     return [o for o in single_source_obligations(ctx) if "get_sync_token" in o.construct or "SyncToken" in o.construct]
+
+
+@rule("C07", "T5", floor=1, kind="S",
+      desc="iter_changes compares each member with ITS old entry: the old etag is (re)defined in every iteration, no "
+           "value is carried over from the previous member")
+def t5(ctx):
+    from .common import carried_uses
+    ic = ctx.own_method(GIT + ".GitStore", "iter_changes")
+    cfg = ctx.cfg(ic)
+    loops = [n for n in cfg.nodes if n.kind == "for" and isinstance(n.ast.iter, ast.Call) and (dotted(n.ast.iter.func) or "").endswith("iter_with_etag")]
+    if not loops:
+        raise AnalysisError("iter_changes: loop over the new listing not found")
+    lp = loops[-1]
+    # the variable compared with the new etag
+    from .common import loop_body_nodes
+    body = loop_body_nodes(cfg, lp)
+    olds = set()
+    new_names = {x.id for x in ast.walk(lp.ast.target) if isinstance(x, ast.Name)}
+    for n in cfg.nodes:
+        if n.kind == "test" and n.id in body and isinstance(n.ast, ast.Compare) and isinstance(n.ast.ops[0], (ast.NotEq, ast.Eq)):
+            names = [x.id for x in ast.walk(n.ast) if isinstance(x, ast.Name)]
+            if any(x in new_names for x in names):
+                olds |= {x for x in names if x not in new_names}
+    if not olds:
+        raise AnalysisError("iter_changes: comparison of the old and the new etag not found")
+    obs = []
+    for v in sorted(olds):
+        cu = carried_uses(cfg, lp, v)
+        obs.append(ctx.ob(not cu, ic.qualname, where(ic, lp), "`%s` is defined afresh for every member" % v,
+                          "every use is preceded by a definition in the same iteration",
+                          "`%s` is used at line %d with a value that can come from the previous member of the listing: a newly created member is "
+                          "compared with another member's old etag and is dropped from the report when they happen to be equal" % (v, cu[0].lineno if cu else 0)))
+    return obs
